@@ -237,7 +237,7 @@ class C04(Check):
             nontrivial = n >= limit
         # segmentations
         segs_list = [[data]]
-        step = 1 if (tier == "thorough" or len(data) <= 120) else 3
+        step = 1 if (tier == "thorough" or len(data) <= 60) else 5
         if len(data) <= 700:
             segs_list += [en.segments(data, (c,)) for c in range(1, len(data), step)]
             segs_list.append([data[i:i + 1] for i in range(len(data))])
